@@ -3,10 +3,10 @@
 \* Measured: see notes/C17.md
 CONSTANTS
   Seed = 1
-  Extra = 60
+  Extra = 120
   Cube = TRUE
   MaxEvolve = 3
-  EvolveEvery = 5
+  EvolveEvery = 4
 SPECIFICATION Spec
 INVARIANTS TypeOK Total Outcome
 ACTION_CONSTRAINT EmitGen
